@@ -287,7 +287,7 @@ ADDED10 = {
  "C04": " Wave 9: R-MONOFLAG (the all-branches-fixed flag of the alternation analysis can only be lowered).",
  "C05": " Wave 9: R-REPKIND, R-ENUMFULL, R-EOLNL also for rows in a separate if, R-REPCAP (nested group loops around a capture are not merged).",
  "C06": " Wave 9: R-REPKIND, R-SPACEARGS, R-OFFTABLE (ReadRune sizes are used).",
- "C08": " Wave 9: R-OFFTABLE (ReadRune sizes are used), R-LASTLE (the rune-to-byte table is searched for the last entry <= x with a strict predicate).",
+ "C08": " Wave 9: R-OFFTABLE (ReadRune sizes are used), R-LASTLE (the rune-to-byte table is searched for the last entry <= x with a strict predicate), R-STRRUNES (String() is the encoding of the slice Runes() returns).",
  "C09": " Wave 9: R-ROOMLTR (room-to-the-right tests only for left-to-right searches), R-COUNTDEC (the remaining-match count only counts down), R-REPLMASK.",
  "C10": " Wave 9: R-CRAWLGUARD, R-REPLMASK (no node of a replacement literal carries IgnoreCase: addToConcatenate evaluated for literal lengths 0-3).",
  "C11": " Wave 9: R-FRESHRE (no package-level variable can hold a *Regexp).",
